@@ -75,7 +75,9 @@ Fixpoint first_bad (srcs : list src) : option derr :=
 (* validate_prepare_data (sources non-empty, distinct labels) *)
 Definition validate_data (d : data_in) (noff : nat) : dres :=
   match d with
-  | Single (SrcRV _) => if Nat.eqb noff 0 then DOk else DErr DNeedMultiple
+  | Single (SrcRV c) => if negb (Nat.eqb noff 0) then DErr DNeedMultiple
+                        else if c then DErr DCovUnsupported      (* passes validate_prepare_data, refused by the kernel helper (1-D ivar only) *)
+                        else DOk
   | Single SrcOther => DErr DNotRVData
   | Many [] => DErr DCountMismatch                  (* nothing to concatenate: the code raises *)
   | Many srcs => match first_bad srcs with
